@@ -62,6 +62,26 @@ CHECKS = {
         text='Exploration: for every generated function body (all flavours, both return kinds) accepted by hidc, no run on inputs 0..5 (word sizes 2,3; checked and '
              'unchecked) crossed a function boundary sequentially, reached the end of a value-returning body in the model, or differed from the model.',
         note=ISA + '; ' + MODEL, ref='6 (C16)'),
+    'C06': dict(
+        engine='model', technique='runtime observation of accept/reject of the real parser+typechecker on enumerated placements vs an independent context checker',
+        text='Exploration with an exhaustively enumerated sub-space: every construct x expression position x <=1 expression wrapper inside every statement-wrapper '
+             'path of depth <= 2 (quick) / 3 (thorough) in the three function flavours, plus random deeper paths; accept/reject equals the literal reading of the five clauses.',
+        note='the independent context checker (60 lines, literal reading of the property statement); ?? nested in a ?? operand is not judged', ref='6 (C06)'),
+    'C07': dict(
+        engine='svm+model', technique='runtime observation of accept/reject + code generation on rule x position enumerations vs an independent implementation of the documented typing rules; overload tags observed on the SVM',
+        text='Exploration with exhaustively enumerated rule tables: 60 providers x 12 target types x 8 positions, operator/cast/??/index operand typing, 125 single-rule '
+             'ill-typing mutations, random overload sets whose selected overload is observed in the output of the compiled program.',
+        note=ISA + '; expected typing = my implementation of README "Types"', ref='6 (C07)'),
+    'C11': dict(
+        engine='model', technique='runtime comparison of the real parser\'s tree with an independent precedence-climbing parser and a minimal-parentheses printer (round trip)',
+        text='Exhaustive over all ordered pairs and triples of the 16 binary operators with unary/is/postfix decorations and parenthesisations; random trees to depth 6 '
+             'printed minimally and with redundant parentheses; parse(print_min(t)) == t.',
+        note='expected grouping = README "Operators" table; left associativity; ?? and is not chainable', ref='6 (C11)'),
+    'C12': dict(
+        engine='model', technique='runtime comparison of hidc.lexer.lex output (kinds, values, spans) with generator-built token sequences under layout fuzz and with a hand-written reference tokenizer; end-to-end re-layout of programs',
+        text='Exhaustive literal sets (ints of <=3 digits in 4 bases, all 256 \\xHH in strings and chars, every escape, \\u over all planes) + random token sequences '
+             'with arbitrary layout, adjacency soups, and 5 re-layouts of generated programs whose instruction stream must not change.',
+        note='reference tokenizer built from the property statement and README literal forms; ASCII identifiers/whitespace only', ref='6 (C12)'),
 }
 
 NOT_YET = {}
